@@ -99,9 +99,14 @@ func genHBH(rng *lib.Rand) []byte {
 	n := 8*L + 8
 	b := make([]byte, 0, n+8)
 	b = append(b, rng.Byte(), byte(L))
+	clean := rng.Chance(40) // only well-formed options before the tail, so that the walk reaches it
 	for len(b) < n {
 		rem := n - len(b)
-		switch rng.Intn(6) {
+		c := rng.Intn(6)
+		if clean {
+			c = rng.Intn(4)
+		}
+		switch c {
 		case 0: // Pad1
 			b = append(b, 0)
 		case 1: // PadN
@@ -115,6 +120,16 @@ func genHBH(rng *lib.Rand) []byte {
 		case 2: // router alert
 			if rem < 4 {
 				b = append(b, 0)
+				continue
+			}
+			switch rng.Intn(4) {
+			case 0: // jumbo payload (RFC 2675): type 0xC2, length 4
+				if rem >= 6 {
+					b = append(b, 0xc2, 4, 0, 1, 0, 0)
+					continue
+				}
+			case 1: // router alert / jumbo with a wrong length octet
+				b = append(b, byte(pick(rng, 5, 0xc2)), byte(pick(rng, 0, 1, 3, 4, 2)), 0, 0)
 				continue
 			}
 			b = append(b, 5, 2, 0, byte(rng.Intn(3)))
@@ -136,6 +151,17 @@ func genHBH(rng *lib.Rand) []byte {
 		}
 	}
 	b = b[:n]
+	if (clean || rng.Chance(20)) && n >= 8 { // boundary per container: the last option ends at end-1, end, end+1 of the options area
+		k := pick(rng, 2, 3, 4, 6)
+		d := pick(rng, -1, 0, 0, 1)
+		for i := n - k; i < n; i++ {
+			b[i] = 0
+		}
+		b[n-k] = byte(pick(rng, 1, 5, 0x3e, 0xc2))
+		if k-2+d >= 0 {
+			b[n-k+1] = byte(k - 2 + d)
+		}
+	}
 	return append(b, rng.Bytes(pick(rng, 2, 2, 3, 10))...) // IsValid wants two more bytes than Len()
 }
 
@@ -228,10 +254,69 @@ func ndpOption(rng *lib.Rand) []byte {
 	}
 }
 
+// ndpBoundaryOption: inner length fields relative to the END of the enclosing option, outer length byte
+// consistent: an inner element (DNSSL label, RDNSS server list, prefix / route body, MTU) that ends at
+// end-1, end, end+1 of its option.
+func ndpBoundaryOption(rng *lib.Rand) []byte {
+	d := pick(rng, -1, 0, 0, 1) // where the inner element ends relative to the end of the option
+	switch rng.Intn(6) {
+	case 0, 1: // DNSSL: [labels...] the last label ends at end+d (d = 0: no terminator, no padding after it)
+		L := pick(rng, 2, 2, 3)
+		area := 8*L - 8
+		b := append([]byte{31, byte(L), 0, 0}, rng.Bytes(4)...)
+		v := []byte{}
+		if rng.Bool() && area >= 8 { // a complete domain first
+			v = append(v, 2, 'a', 'b', 0)
+		}
+		if rng.Chance(30) && area-len(v) >= 5 { // an unterminated label before the last one
+			v = append(v, 1, 'c')
+		}
+		n := area - len(v) - 1 + d // label length so that 1+n bytes end at area+d
+		if n < 0 {
+			n = 0
+		}
+		v = append(v, byte(n))
+		for len(v) < area {
+			v = append(v, byte('a'+rng.Intn(20)))
+		}
+		return append(b, v[:area]...)
+	case 2: // RDNSS: server list of (L-1)/2 addresses; L even (half an address), L = 1 (none), L odd
+		L := pick(rng, 1, 2, 3, 4, 5)
+		b := rng.Bytes(8 * L)
+		b[0], b[1] = 25, byte(L)
+		return b
+	case 3: // prefix information: body of 30 bytes, option length 3, 4, 5
+		L := 4 + d
+		b := rng.Bytes(8 * L)
+		b[0], b[1] = 3, byte(L)
+		b[2] = byte(pick(rng, 0, 1, 64, 127, 128, 129))
+		return b
+	case 4: // route information: prefix length against the bytes the option length provides
+		L := pick(rng, 1, 2, 3, 4)
+		b := rng.Bytes(8 * L)
+		b[0], b[1] = 24, byte(L)
+		b[2] = byte(pick(rng, 0, 1, 8*(L-1)-1, 8*(L-1), 8*(L-1)+1, 64, 65, 128, 129))
+		b[3] = byte(pick(rng, 0, 8, 24, 16))
+		return b
+	default: // MTU with option length 1, 2; link-layer address with length 1, 2
+		L := pick(rng, 1, 2)
+		b := rng.Bytes(8 * L)
+		b[0], b[1] = byte(pick(rng, 5, 1, 2)), byte(L)
+		return b
+	}
+}
+
 func ndpOptions(rng *lib.Rand, first []byte) []byte {
 	b := append([]byte{}, first...)
 	for k := pick(rng, 0, 0, 1, 1, 2, 3); k > 0; k-- {
-		b = append(b, ndpOption(rng)...)
+		if rng.Chance(35) {
+			b = append(b, ndpBoundaryOption(rng)...)
+		} else {
+			b = append(b, ndpOption(rng)...)
+		}
+	}
+	if rng.Chance(25) { // a boundary option as the LAST one: its end is the end of the block and of the view
+		b = append(b, ndpBoundaryOption(rng)...)
 	}
 	return b
 }
@@ -323,7 +408,12 @@ func genDHCP4(rng *lib.Rand) []byte {
 			opt(rng.Intn(254)+1, rng.Bytes(rng.Intn(20)))
 		}
 	}
-	switch rng.Intn(6) {
+	switch rng.Intn(8) {
+	case 6, 7: // boundary per container: the last option's value ends at end-1, end, end+1 of the options area
+		n := rng.Intn(6)
+		d := pick(rng, -1, 0, 0, 1)
+		b = append(b, byte(1+rng.Intn(254)), byte(n))
+		b = append(b, rng.Bytes(n-d+boolInt(n-d < 0)*(d-n))...)
 	case 0: // no end option
 	case 1: // truncated last option
 		b = append(b, byte(1+rng.Intn(254)), byte(5+rng.Intn(100)), 1, 2)
@@ -334,6 +424,13 @@ func genDHCP4(rng *lib.Rand) []byte {
 		b = append(b, make([]byte, pick(rng, 0, 0, 3, 20))...)
 	}
 	return b
+}
+
+func boolInt(b bool) int {
+	if b {
+		return 1
+	}
+	return 0
 }
 
 func genDNS(rng *lib.Rand) []byte { return rng.Bytes(12 + pick(rng, 0, 0, 5, 17, rng.Intn(60))) }
@@ -391,7 +488,16 @@ func genLLDP(rng *lib.Rand) []byte {
 		}
 		tlv(t, n, rng.Bytes(n))
 	}
-	switch rng.Intn(4) {
+	switch rng.Intn(5) {
+	case 4: // boundary per container: the last TLV's value ends at end-1, end, end+1 of the frame
+		n := pick(rng, 0, 1, 2, 5)
+		d := pick(rng, -1, 0, 0, 1)
+		have := n - d
+		if have < 0 {
+			have = 0
+		}
+		b = append(b, byte(pick(rng, 4, 5, 127)<<1), byte(n))
+		b = append(b, rng.Bytes(have)...)
 	case 0: // no end TLV
 	case 1:
 		tlv(0, 0, nil)
